@@ -49,7 +49,7 @@ SPEC = {
                  "C20_stopped_ctx_before_return", "C20_stopped_monotone", "C20_stopped_observations",
                  "C20_wrappers_forward_all_arguments", "C20_driver_step_sound", "C20_shutdown_terminates",
                  "C20_handler_shutdownandwait_selfwait_witness", "C20_no_waitgroup_add_after_stop",
-                 "C20_skeleton_type_Daemon", "C20_skeleton_type_WorkerFunc"] + ["C20_decisions_" + m for m in (
+                 "C20_skeleton_type_Daemon", "C20_skeleton_type_WorkerFunc", "C20_refused_only_when_stopped"] + ["C20_decisions_" + m for m in (
                      "GetRunningBackgroundWorkers", "getWorkersAndShutdownOrder", "runBackgroundWorker", "BackgroundWorker", "DebugLogger", "Start", "Run", "shutdown", "stopWorkers", "cleanupWorker", "removeWorkerFromShutdownOrder", "clear", "Shutdown", "ShutdownAndWait", "IsRunning", "IsStopped", "ContextStopped")],
     "trusted_base": [
         "hand-written protocol model Hive/Model/Daemon.lean of app/daemon/daemon.go (critical sections of d.lock atomic; "
@@ -91,7 +91,9 @@ SPEC = {
                 "_before_return / _monotone / _observations (ContextStopped is cancelled after the flag is set and before any worker "
                 "context; observed on the real daemon by ~43k observations per quick run, oracle `ctx`), C20_shutdown_terminates "
                 "(termination measure once the handlers returned), C20_wrappers_forward_all_arguments (regenerated package-level "
-                "wrappers), C20_driver_step_sound (the driver's registration step is a successor of the model).",
+                "wrappers), C20_decisions_* (regenerated conditions / returns / assignments of every method), C20_no_waitgroup_add_after_stop "
+                "(no WaitGroup.Add once a Wait can be in progress), C20_driver_step_sound (the driver's registration step is a successor "
+                "of the model).",
         "note": "Trusted: Lean kernel; the hand-written model (tie = differential + trace-predicate validation, sampled schedules); "
                 "the harness's event stamping; hang detection by generous timeouts; harness/c20/wrapgen and harness/tools/extract-sync (go/ast).",
         "technique": "Lean 4 inductive invariants over an interleaving semantics + trace-predicate conformance + differential execution",
